@@ -26,6 +26,24 @@ def _load_known_merged():
     return k
 verif.load_known = _load_known_merged
 
+def strip_events(line):
+    """drop the ` ev:...` groups the harness appends in `p` mode (the Lean driver does not model the
+    service decoder's events; they are judged by service_oracle)"""
+    if " ev:" not in line:
+        return line
+    out, skip = [], False
+    for t in line.split(" "):
+        if t.startswith("ev:"):
+            skip = True
+        elif t == "dec":
+            skip = False
+        if not skip:
+            out.append(t)
+    return " ".join(out)
+
+_first_diff = verif.first_diff
+verif.first_diff = lambda a, b: _first_diff([strip_events(x) for x in a], [strip_events(x) for x in b])
+
 SIG_A = "sep-parity-keeps-curr-sp"
 SIG_B = "demux-unsupported-header-discards-current"
 SIG_C = "demux-0x1n-0x4n-share-buffer"
@@ -80,11 +98,12 @@ class ServiceMirror:
     libzvbi.h vbi_program_info / vbi_network), for programme id, length, name, CGMS-A (classes
     current/future) and network name, call letters, tape delay: fields equal the decoded packet
     content; VBI_EVENT_PROG_INFO on the second occurrence of a packet type with unchanged data;
-    VBI_EVENT_NETWORK + NETWORK_ID when a changed name is repeated."""
+    when a changed name is repeated VBI_EVENT_NETWORK_ID, and - only if the station id derived from
+    call letters / name differs from the current one - a decoder reset and VBI_EVENT_NETWORK."""
     def __init__(self):
         self.pi = [self.fresh(0), self.fresh(1)]
         self.cycle = [0, 0]
-        self.net = {"name": [], "call": [], "cycle": 0, "nuid": False, "td": 0}
+        self.net = {"name": [], "call": [], "cycle": 0, "nuid": 0, "td": 0}
 
     @staticmethod
     def fresh(f):
@@ -151,11 +170,14 @@ class ServiceMirror:
                 if t != nt["name"]:
                     nt["name"], nt["cycle"] = t, 1
                 elif nt["cycle"] == 1:
-                    if nt["nuid"]:
-                        self.pi = [self.fresh(0), self.fresh(1)]
-                        self.cycle = [0, 0]
-                    nt["nuid"] = True
-                    ev.append(("net", list(nt["name"]), list(nt["call"]), nt["td"]))
+                    nid = X.nuid_of(nt["call"] or nt["name"])
+                    if nid != nt["nuid"]:
+                        # a different station: decoder reset (programme info cleared), NETWORK announced
+                        if nt["nuid"]:
+                            self.pi = [self.fresh(0), self.fresh(1)]
+                            self.cycle = [0, 0]
+                        nt["nuid"] = nid
+                        ev.append(("net", list(nt["name"]), list(nt["call"]), nt["td"]))
                     ev.append(("netid",))
                     nt["cycle"] = 3
             elif typ == 2:
@@ -175,9 +197,11 @@ def service_oracle(case, out):
     after the documented repeat (`p` ops)"""
     m = ServiceMirror()
     for i, l in enumerate(case):
-        if not l.startswith("p "):
+        if not (l.startswith("p ") or l.startswith("s ")):
             continue
         if i >= len(out) or not out[i].startswith("ok "):
+            if l.startswith("s "):
+                continue
             return "service-decoder-output: '%s' -> '%s'" % (l, out[i] if i < len(out) else "<none>")
         o = parse_out(out[i])
         pred = []
@@ -186,6 +210,8 @@ def service_oracle(case, out):
             if e is None:
                 return None
             pred += e
+        if l.startswith("s "):
+            continue            # same decoder, but the harness prints events only for `p` ops
         got = []
         for e in o["events"]:
             kv = dict(t.split("=", 1) for t in e[1:] if "=" in t)
@@ -409,8 +435,12 @@ class C09(verif.Spec):
                     return SIG_C + ": vbi_xds_demux_feed keeps subclasses 0x1n and 0x4n in one buffer"
                 if got == X.reference(pairs, "d", alias=True, reject_kills=True)[0]:
                     return SIG_BC + ": both known deviations of vbi_xds_demux_feed in one stream"
-            return "delivery-mismatch: mode %s expected %s got %s" % (
-                mode, [(c, s, d.hex()) for c, s, d in exp][:4], [(c, s, d.hex()) for c, s, d in got][:4])
+            k = 0
+            while k < min(len(exp), len(got)) and exp[k] == got[k]:
+                k += 1
+            fmt = lambda l: [(c, t, d.hex()) for c, t, d in l[k:k + 2]] or "nothing more"
+            return ("delivery-mismatch: mode %s, %d expected / %d delivered, first difference at delivery #%d: "
+                    "expected %s got %s" % (mode, len(exp), len(got), k, fmt(exp), fmt(got)))
         return None
 
 
@@ -449,8 +479,10 @@ class C09(verif.Spec):
     def extra_checks(self, ctx):
         cases = self.gen_service_cases(ctx["rng"], ctx["tier"])
         outs, inc = verif.run_side(ctx["hcmd"], cases, self.timeout_per_case)
+        mouts, _ = verif.run_side(ctx["mcmd"], cases, self.timeout_per_case)
         bad = []
         events = 0
+        agree = 0
         for x in inc:
             bad.append(("%s of the real code in the service decoder (%s)" % (x["kind"], verif.summarize_san(x["detail"])),
                         cases[x["case"]]))
@@ -462,7 +494,13 @@ class C09(verif.Spec):
             w = service_oracle(c, o)
             if w:
                 bad.append((w, c))
+            d = verif.first_diff(o, mouts.get(i, []))
+            if d is None:
+                agree += 1
+            elif not w:
+                bad.append(("service-stream-correspondence: op %d impl '%s' model '%s'" % (d[0], d[1][:120], d[2][:120]), c))
         self.extra_coverage = {"service_decoder_cases": len(cases), "service_decoder_events_checked": events,
+                               "service_decoder_cases_model_agrees": agree,
                                "control_flow_flags": self.flags()}
         return bad[:5]
 
